@@ -117,7 +117,8 @@ Definition wr_inv (s : mst) (p : str) (h f : nat) (data : bytes) (a : Z) : Prop 
   exists n, lookup s (normalize_path p) = Some f /\ get_node s f = Some n /\ ndata n = data /\ ndir n = false /\
             nth_error (mhandles s) h = Some (mkH f a 0 false false).
 
-(* sane state for WriteFile(p): p is a regular file, or p is absent and its parent directory is present *)
+(* sane state for WriteFile(p): p is a regular file, or p is absent and its parent entry is present
+   (a directory: the open succeeds; a regular file: the open is refused with ENOTDIR) *)
 Definition sane_for (s : mst) (p : str) : Prop :=
   match lookup s (normalize_path p) with
   | Some f => exists n, get_node s f = Some n /\ ndir n = false
